@@ -89,6 +89,20 @@ AffPts == {AffPt(k) : k \in 1..K}
 
 Scalars == {G(0 - 1), G(2), G(0 - 3)} \cup (IF Cplx THEN {<<0, 1>>, <<1, 1>>, <<0, 0 - 2>>} ELSE {})
 
+\* extreme rescalings c = m * 10^e (|c| from 1e-12 to 1e12, real and complex).  The cross-multiplied equality
+\* (c x_j) x_i = x_j (c x_i) behind "rescaling moves nothing" does not involve the size of c, so it is checked for
+\* the mantissas m (10^e is a positive real common factor); the harness applies the full factor to the library's
+\* representative of every state and must observe the state's own verdicts and affine coordinates again
+ExtremeScales == {[m |-> G(1), e |-> 0 - 9], [m |-> G(0 - 1), e |-> 0 - 12], [m |-> G(3), e |-> 12]}
+                 \cup (IF Cplx THEN {[m |-> <<0, 0 - 3>>, e |-> 0 - 10], [m |-> <<1, 1>>, e |-> 0 - 12], [m |-> <<0, 2>>, e |-> 11]}
+                       ELSE {[m |-> G(0 - 2), e |-> 0 - 10]})
+
+ASSUME \A a \in AffPts, i \in Charts, sc \in ExtremeScales, k \in Charts :
+         LET p == FromAffine(a, i)
+             q == GVScale(sc.m, p)
+         IN /\ InChart(q, k) <=> InChart(p, k)
+            /\ InChart(p, k) => QVecEq(Affine(q, k), Affine(p, k))
+
 \* invertible linear maps of the affine chart: a unitriangular shear, a scaled signed cycle,
 \* and (complex mode) a triangular map with Gaussian entries
 LShear == [r \in 1..N |-> [c \in 1..N |-> IF r = c \/ c = r + 1 THEN GOne ELSE GZero]]
@@ -210,5 +224,5 @@ Obs == [x |-> x, len |-> len, how |-> last,
 EmitObs == PrintT("OBS " \o ToJson(Obs))
 Emit == PrintT("EMIT " \o ToJson([from |-> x, flen |-> len, act |-> last', to |-> x']))
 View == <<x, y, len>>
-ASSUME PrintT("MAPS " \o ToJson([lin |-> LinTab, trans |-> TransTab]))
+ASSUME PrintT("MAPS " \o ToJson([lin |-> LinTab, trans |-> TransTab, extreme |-> ExtremeScales]))
 =============================================================================
